@@ -54,6 +54,11 @@ def applyKids (mtch : Nat → Bool) (allowed : Nat → Bool) : List Slice → Li
     (rs.1, r.1 :: rs.2)
 end
 
+/-- the token sets of the remainder tries built by `from_topo_node`: `trie_without_child[k]` for
+    every child, and `trie_without_children`; these are the sets `apply` walks -/
+def remainders : Slice → List (List Nat) × List Nat
+  | node _ m kids => (kids.map (fun k => diff m k.mask), diff m (kids.flatMap Slice.mask))
+
 /-- `SlicedBiasComputer::compute_bias` (empty start): try the slice tree, else walk everything -/
 def computeBias (mtch : Nat → Bool) (allowed : Nat → Bool) (top : Slice) (subsumePossible : Bool) :
     List Nat :=
